@@ -466,6 +466,7 @@ def main(pid: str, argv):
     nontrivial = set()
     skipped = 0
     mism = []
+    model_mism = set()
     coq_err = None
     oracle_checked = 0
     known_hits = []
@@ -491,6 +492,7 @@ def main(pid: str, argv):
         if ok:
             codes, coq_err = coq_eval_codes(pid, exprs)
             mism.extend(idx_of[b] for b, c in codes.items() if c == 1)
+            model_mism = set(mism)
             skipped += sum(1 for c in codes.values() if c == 2)
             if coq_err:
                 violation({"property": pid, "kind": "correspondence-evaluation-failure",
@@ -521,6 +523,10 @@ def main(pid: str, argv):
         kf = mod.known_finding(c, known) if hasattr(mod, "known_finding") else None
         if not kf and hasattr(mod, "known_finding_result"):
             kf = mod.known_finding_result(c, r, known)
+        if kf and getattr(mod, "KNOWN_ONLY_IF_MODEL_AGREES", False) and i in model_mism:
+            # the recorded finding is one the model reproduces (its refutation theorem); a record the
+            # model does NOT predict is a different violation even if it shows the same symptom
+            kf = None
         if kf:
             known_hits.append(kf)
             continue
